@@ -8,8 +8,24 @@ import (
 	rt "github.com/arnodel/golua/runtime"
 )
 
-var gcPercent int
-var gcRunning bool
+// Whether the Go collector was enabled when the process started.  Written once
+// by init, read-only afterwards.
+var gcEnabledAtStart bool
+
+type gcRunningKeyType struct{}
+
+var gcRunningKey = rt.AsValue(gcRunningKeyType{})
+
+// The Go collector serves every runtime in the process, so a runtime must not
+// switch it off for the others: "stop" and "restart" only record, in the
+// registry of the runtime they are called in, what "isrunning" answers there.
+func gcRunning(r *rt.Runtime) bool {
+	v := r.Registry(gcRunningKey)
+	if v.IsNil() {
+		return gcEnabledAtStart
+	}
+	return v.AsBool()
+}
 
 func collectgarbage(t *rt.Thread, c *rt.GoCont) (rt.Cont, error) {
 	opt := "collect"
@@ -29,13 +45,11 @@ func collectgarbage(t *rt.Thread, c *rt.GoCont) (rt.Cont, error) {
 		t.CollectGarbage()
 		t.Push1(next, rt.BoolValue(true))
 	case "stop":
-		debug.SetGCPercent(-1)
-		gcRunning = false
+		t.SetRegistry(gcRunningKey, rt.BoolValue(false))
 	case "restart":
-		debug.SetGCPercent(gcPercent)
-		gcRunning = gcPercent != -1
+		t.SetRegistry(gcRunningKey, rt.BoolValue(gcEnabledAtStart))
 	case "isrunning":
-		t.Push1(next, rt.BoolValue(gcRunning))
+		t.Push1(next, rt.BoolValue(gcRunning(t.Runtime)))
 	case "setpause":
 		// TODO: perhaps change gcPercent to reflect this?
 	case "setstepmul":
@@ -51,7 +65,7 @@ func collectgarbage(t *rt.Thread, c *rt.GoCont) (rt.Cont, error) {
 }
 
 func init() {
-	gcPercent = debug.SetGCPercent(-1)
-	gcRunning = gcPercent != -1
+	gcPercent := debug.SetGCPercent(-1)
+	gcEnabledAtStart = gcPercent != -1
 	debug.SetGCPercent(gcPercent)
 }
